@@ -50,3 +50,48 @@ ENGINES.append({"name": "E5 rules", "path": "/verif/sdpverif/rules", "serves_pro
                 "kind_free_text": "effect / def-use / must-assign / guard-atom rules over E1 (statement CFG, dominators, read-before-write)"})
 
 NOTES = "Static analysis only; nothing from /repo is imported or executed. See DESIGN.md."
+
+_FRAG_NOTE = ("Trusted: PLY 3.11 driver semantics (default reductions, shift/reduce and reduce/reduce resolution as generated), "
+              "CPython ast/re. Assumed: words are separated as pre_process_data intends (the L1 string pre-processor is declined, "
+              "DESIGN 8); word classes are represented by 3-6 lock-step exemplars and every branch condition / table hit / token type "
+              "must agree on all of them (else ANALYSIS-ERROR). Not decided: text of multi-word / transformed types and multi-token defaults.")
+CHECKS["C01"] = {
+    "engine": "E3 lexmodel x E4 deriv (spec x lexer x LALR fixed point, abstract action evaluation) + E5 T-ORDER",
+    "category": "model_checking",
+    "technique": "static fixed point over the product of a segment-tagged fragment automaton, the abstractly interpreted lexer and the freshly generated LALR tables, with abstract interpretation of the semantic actions (no repo code executed); append-only lint on column lists",
+    "text": "For every CREATE TABLE of the core column fragment, of any number of columns and any number/order of options (the product is finite because the grammar's list constructs are left-recursive): the statement is accepted, no grammar symbol merges words of two options / columns, every column dict is exactly {name, type, size, six option keys} as written and the table's column list grows by exactly that column at its end. Decides the derivation-level and action-level part of the property for all inputs of the fragment at word-class granularity; not the character-level pre-processing.",
+    "design_ref": "DESIGN.md section 4 C01, section 2 E3/E4",
+    "note": _FRAG_NOTE,
+}
+CHECKS["C02"] = {
+    "engine": "E3 lexmodel x E4 deriv (constraints fragment)",
+    "category": "model_checking",
+    "technique": "static fixed point (fragment automaton x abstract lexer x LALR tables) with abstract evaluation of the constraint / reference actions against key-level expectations",
+    "text": "For every table mixing columns with table-level PRIMARY KEY / UNIQUE / CONSTRAINT ... / CHECK / FOREIGN KEY declarations (1..2 columns each, any number, any position after the first column) and inline REFERENCES with ON DELETE / ON UPDATE actions: each declaration is accepted, folded exactly once, adds exactly its own entry with its exact column list / referenced schema, table, column and actions, flags exactly the single column of a one-column UNIQUE, and touches nothing else. The SET NULL action family is a recorded known finding.",
+    "design_ref": "DESIGN.md section 4 C02",
+    "note": _FRAG_NOTE + " The output-layer post-processing (PK collection, NOT NULL forcing, unique propagation) is decided by the E5 rules listed in the evidence.",
+}
+CHECKS["C11"] = {
+    "engine": "E3 lexmodel x E4 deriv (ten clause-group fragments)",
+    "category": "model_checking",
+    "technique": "static fixed point per dialect clause group (any sequence of the group's clauses) with abstract evaluation of the clause actions: exactly the documented key is added, nothing else changes",
+    "text": "For each of the ten dialect groups and every sequence of its catalogue clauses after a table body: accepted, each clause is folded on its own by an action that adds exactly its documented key holding the clause's value words as written, and the table's name, columns, keys, constraints and the other clauses are unchanged. Oracle ORGANIZATION INDEX after TABLESPACE/STORAGE is a recorded known finding.",
+    "design_ref": "DESIGN.md section 4 C11",
+    "note": _FRAG_NOTE + " Placement top-level vs table_properties per output mode is decided by the C10 check.",
+}
+CHECKS["C17"] = {
+    "engine": "E3 lexmodel x E4 deriv (sequence fragment) + E5 T-RESET",
+    "category": "model_checking",
+    "technique": "static fixed point (sequence-option automaton x abstract lexer x LALR tables) with abstract evaluation of the option action on lock-step integer words incl. 64-bit and negative values; per-statement flag-reset analysis",
+    "text": "For CREATE SEQUENCE [s.]n followed by any sequence of the twelve option forms in both keyword spellings with positive, negative and 64-bit values: accepted, every option folded on its own, each fold adds exactly one key holding int(value) / False / True, schema and name as written; the lexer's sequence mode flag is reset before every statement so options cannot leak into neighbours.",
+    "design_ref": "DESIGN.md section 4 C17",
+    "note": _FRAG_NOTE,
+}
+for _k in ("C01", "C02", "C11", "C17"):
+    NOT_APPLICABLE.pop(_k, None)
+ENGINES += [
+    {"name": "E3 lexmodel / pyabs", "path": "/verif/sdpverif/lexmodel.py", "serves_properties": ["C01", "C02", "C04", "C05", "C06", "C09", "C11", "C17", "C18"],
+     "kind_free_text": "abstract interpretation of the t_* lexer methods over word classes (lock-step exemplars with uniformity check) -> finite transducer"},
+    {"name": "E4 deriv", "path": "/verif/sdpverif/deriv.py", "serves_properties": ["C01", "C02", "C04", "C05", "C06", "C09", "C11", "C17", "C18"],
+     "kind_free_text": "fixed point over fragment spec x lexer transducer x LALR automaton; obligations O-accept / O-segment / O-value / O-raise / O-case; actions evaluated abstractly"},
+]
